@@ -137,9 +137,23 @@ def _dt(seconds, micro, kind, offset_min):
         y, mo, d, h, mi, s = canon.utc_fields(seconds)
         return datetime.datetime(y, mo, d, h, mi, s, micro,
                                  tzinfo=datetime.timezone.utc)
+    if kind == 'ruletz':     # aware, DST rules; the repeated hour comes out with fold=1
+        y, mo, d, h, mi, s = canon.utc_fields(seconds)
+        utc = datetime.datetime(y, mo, d, h, mi, s, micro, tzinfo=canon.RULETZ)
+        return canon.RULETZ.fromutc(utc)
     tz = datetime.timezone(datetime.timedelta(minutes=offset_min))
     y, mo, d, h, mi, s = canon.utc_fields(seconds + offset_min * 60)
     return datetime.datetime(y, mo, d, h, mi, s, micro, tzinfo=tz)
+
+
+def fold_pair(year, minute, micro=0):
+    """(fold=0, fold=1) datetimes with identical wall time in the repeated hour of
+    `year` under RULETZ: equal by ==, one hour apart as instants"""
+    start, end = canon.RULETZ._range(year)
+    wall = end - datetime.timedelta(hours=1) + datetime.timedelta(
+        minutes=minute % 60, microseconds=micro)
+    a = wall.replace(tzinfo=canon.RULETZ, fold=0)
+    return a, a.replace(fold=1)
 
 
 def epoch_seconds_st():
@@ -149,7 +163,7 @@ def epoch_seconds_st():
                          MAX_TS - 1, MAX_TS, 1700000000]))
 
 
-def datetimes(kinds=('naive', 'utc', 'offset', 'nulltz')):
+def datetimes(kinds=('naive', 'utc', 'offset', 'nulltz', 'ruletz')):
     """instants epoch..2106-02-07T06:28:15, with microseconds"""
     return st.builds(
         _dt, epoch_seconds_st(),
@@ -221,8 +235,10 @@ def deep_values(max_depth=32, leaf=None):
                       st.text(st.characters(min_codepoint=0x61,
                                             max_codepoint=0x7a), max_size=3),
                       st.one_of(st.none(), st.none(), leaf))
-    return st.builds(build, st.lists(layer, min_size=1, max_size=max_depth),
-                     leaf)
+    # draw the depth explicitly: st.lists(max_size=N) alone almost never gets long
+    layers = st.integers(1, max_depth).flatmap(
+        lambda d: st.lists(layer, min_size=d, max_size=d))
+    return st.builds(build, layers, leaf)
 
 
 def depth_of(v):
